@@ -3,6 +3,7 @@ package core
 import (
 	"bufio"
 	"bytes"
+	"encoding/json"
 	"fmt"
 	"go/ast"
 	"go/token"
@@ -42,7 +43,37 @@ var bceRe = regexp.MustCompile(`^(.+\.go):(\d+):(\d+): Found (IsInBounds|IsSlice
 // RunBCE compiles the module with the prove pass reporting unproven bounds checks and maps
 // every report inside the module to its syntax node and enclosing function.
 func (p *Prog) RunBCE(extraEnv ...string) ([]BoundsSite, error) {
-	cmd := exec.Command("go", "build", "-gcflags="+ModPath+"/...=-d=ssa/check_bce/debug=1", "./...")
+	srcCache = map[string][]byte{}
+	for name, content := range p.Overlay {
+		srcCache[name] = content
+	}
+	args := []string{"build", "-gcflags=" + ModPath + "/...=-d=ssa/check_bce/debug=1"}
+	if len(p.Overlay) > 0 {
+		// the normal form: compile the rewritten files in place of the ones on disk
+		dir, err := os.MkdirTemp("", "verifchk-overlay-")
+		if err != nil {
+			return nil, err
+		}
+		defer os.RemoveAll(dir)
+		repl := map[string]string{}
+		i := 0
+		for name, content := range p.Overlay {
+			i++
+			f := filepath.Join(dir, fmt.Sprintf("f%d.go", i))
+			if err := os.WriteFile(f, content, 0o644); err != nil {
+				return nil, err
+			}
+			repl[name] = f
+		}
+		jb, _ := json.Marshal(map[string]any{"Replace": repl})
+		oj := filepath.Join(dir, "overlay.json")
+		if err := os.WriteFile(oj, jb, 0o644); err != nil {
+			return nil, err
+		}
+		args = append(args, "-overlay="+oj)
+	}
+	args = append(args, "./...")
+	cmd := exec.Command("go", args...)
 	cmd.Dir = p.Repo
 	cmd.Env = append(os.Environ(), extraEnv...)
 	var out bytes.Buffer
